@@ -1275,11 +1275,21 @@ impl<'a, const C: usize, const R: usize, T: 'a + Copy + std::fmt::Debug> Layout<
     pub fn tick(&mut self) -> CustomEvent<'a, T> {
         let active_layer = self.current_layer() as u16;
         if let Some(chv2) = self.chords_v2.as_mut() {
-            self.queue.extend(chv2.tick_chv2(active_layer).drain(0..));
+            let mut chv2_events = chv2.tick_chv2(active_layer);
             if let chord_action @ Some(_) = chv2.get_action_chv2() {
                 self.action_queue.push_back(chord_action);
                 self.oneshot.pause_input_processing_ticks =
                     self.oneshot.pause_input_processing_delay;
+            }
+            // `extend` only takes what fits into `self.queue` and would drop the rest. Handle a
+            // full queue the same way `event` does.
+            for queued in chv2_events.drain(0..) {
+                if let Some(overflow) = self.queue.push_back(queued) {
+                    for i in -1..(EXTRA_WAITING_LEN as i8) {
+                        self.waiting_into_hold(i);
+                    }
+                    self.dequeue(overflow);
+                }
             }
         }
         if let Some(Some((coord, delay, action))) = self.action_queue.pop_front() {
